@@ -40,6 +40,19 @@ template <int K, size_t BND> static void roundtrip_h()
     vf_observe_u64(vf_stream_len(os));
 }
 
+template <int KA, int KB, size_t BND, bool NEIGHBOUR> static void cross_h();
+// long payloads: exactly LEN array elements (all scalars symbolic); no forks, the payload loops run concretely
+template <int K, size_t LEN> static void roundtrip_len_h()
+{
+    vf::g_exact_len = LEN + 1;
+    roundtrip_h<K, 0>();
+}
+template <int KA, int KB, size_t LEN> static void cross_len_h()
+{
+    vf::g_exact_len = LEN + 1;
+    cross_h<KA, KB, 0, false>();
+}
+
 // ---------------------------------------------------------------------------------------------- C07 cross-type loads
 // finite and within the range of the narrower type, or the pair is not a narrowing one
 template <class O1, class O2> static bool narrow_ok(const O1 & a, const O2 &)
